@@ -24,6 +24,16 @@ _mon = sys.monitoring
 ACTIVE = None  # the Scheduler in force
 
 
+class ExcRecord:
+    """what is kept of an exception raised in a managed thread"""
+
+    def __init__(self, name, msg, harness):
+        self.name, self.msg, self.harness = name, msg, harness
+
+    def __repr__(self):
+        return "%s(%r)" % (self.name, self.msg)
+
+
 class Deadlock(BaseException):
     """raised inside blocked threads to unwind them once a deadlock has been recorded"""
 
@@ -55,6 +65,8 @@ class Scheduler:
         self.errors = []
         self.events = []  # harness-visible log (appended by stand-ins / monitors)
         self.monitor = None  # optional callable(scheduler, what) evaluated at every point
+        self._results = None
+        self.queue_hook = None  # optional callable(kind, tid, item) called by SchedLifoQueue
 
     # ---- setup
     def spawn(self, tid, fn):
@@ -240,7 +252,25 @@ class Scheduler:
             raise HarnessError("; ".join(self.errors))
 
     def results(self):
+        if self._results is not None:
+            return self._results
         return {tid: t.result for tid, t in self.ts.items()}
+
+    def detach(self):
+        """freeze the results and drop thread objects/closures so that the objects under test
+        can be reclaimed *now* (finalizers must not fire inside a later execution)"""
+        res = {}
+        for tid, t in self.ts.items():
+            r = t.result
+            if r is not None and r[0] == "exc":
+                # keep no exception object: its traceback/attributes pin the objects under test
+                e = r[1]
+                r = ("exc", ExcRecord(type(e).__name__, str(e)[:300], isinstance(e, HarnessError)))
+            res[tid] = r
+        self._results = res
+        self.ts = {}
+        self.monitor = None
+        self.queue_hook = None
 
 
 # ------------------------------------------------------------------ stand-ins
@@ -291,6 +321,8 @@ class SchedLifoQueue:
         self.queue.append(item)
         if s is not None:
             s.events.append(("put", s.cur, id(self), item))
+            if s.queue_hook is not None:
+                s.queue_hook("put", s.cur, item)
 
     def get(self, block=True, timeout=None):
         _pt(("q.get",))
@@ -310,6 +342,8 @@ class SchedLifoQueue:
         item = self.queue.pop()
         if s is not None:
             s.events.append(("get", s.cur, id(self), item))
+            if s.queue_hook is not None:
+                s.queue_hook("get", s.cur, item)
         return item
 
     def put_nowait(self, item):
